@@ -111,5 +111,6 @@ def main():
 
 if __name__ == "__main__":
     r = main()
-    json.dump(r, open(os.path.join(r["seed"], "verify.json"), "w"), indent=1)
+    if "--no-write" not in sys.argv:
+        json.dump(r, open(os.path.join(r["seed"], "verify.json"), "w"), indent=1)
     print(json.dumps({k: v for k, v in r.items() if not k.endswith("_tail")}, indent=1))
